@@ -144,12 +144,15 @@ func init() {
 	verifAPI = map[string]externalFn{
 		"Symbolic": func(fr *frame, args []value) value { return true },
 		"Bool": func(fr *frame, args []value) value {
+			fr.i.ex.noteInput(args[0].(string), "bool")
 			return symBool{fr.ps().newInput(args[0].(string), 0)}
 		},
 		"Uint64": func(fr *frame, args []value) value {
+			fr.i.ex.noteInput(args[0].(string), "any uint64")
 			return symInt{types.Uint64, fr.ps().newInput(args[0].(string), 64)}
 		},
 		"Uint8": func(fr *frame, args []value) value {
+			fr.i.ex.noteInput(args[0].(string), "any byte")
 			return symInt{types.Uint8, fr.ps().newInput(args[0].(string), 8)}
 		},
 		"Int": func(fr *frame, args []value) value {
@@ -157,6 +160,7 @@ func init() {
 		},
 		"IntRange": func(fr *frame, args []value) value {
 			lo, hi := args[1].(int), args[2].(int)
+			fr.i.ex.noteInput(args[0].(string), fmt.Sprintf("int in [%d,%d]", lo, hi))
 			if lo == hi {
 				return lo
 			}
@@ -166,6 +170,7 @@ func init() {
 		},
 		"Choice": func(fr *frame, args []value) value {
 			n := args[1].(int)
+			fr.i.ex.noteInput(args[0].(string), fmt.Sprintf("choice of %d", n))
 			if n <= 1 {
 				return 0
 			}
@@ -175,6 +180,7 @@ func init() {
 		},
 		"Bytes": func(fr *frame, args []value) value {
 			n := args[1].(int)
+			fr.i.ex.noteInput(args[0].(string), fmt.Sprintf("%d arbitrary bytes", n))
 			r := make([]value, n)
 			for k := 0; k < n; k++ {
 				r[k] = symInt{types.Uint8, fr.ps().newInput(fmt.Sprintf("%s.%d", args[0].(string), k), 8)}
@@ -183,6 +189,7 @@ func init() {
 		},
 		"String": func(fr *frame, args []value) value {
 			n := args[1].(int)
+			fr.i.ex.noteInput(args[0].(string), fmt.Sprintf("%d arbitrary bytes", n))
 			r := make([]value, n)
 			for k := 0; k < n; k++ {
 				r[k] = symInt{types.Uint8, fr.ps().newInput(fmt.Sprintf("%s.%d", args[0].(string), k), 8)}
@@ -213,13 +220,14 @@ func init() {
 		},
 		"Tier": func(fr *frame, args []value) value { return fr.i.cfg.Tier },
 		"Bound": func(fr *frame, args []value) value {
-			if v, ok := fr.i.cfg.Bounds[args[0].(string)]; ok {
-				return v
+			v := args[1].(int)
+			if o, ok := fr.i.cfg.Bounds[args[0].(string)]; ok {
+				v = o
+			} else if fr.i.cfg.Tier == "thorough" {
+				v = args[2].(int)
 			}
-			if fr.i.cfg.Tier == "thorough" {
-				return args[2].(int)
-			}
-			return args[1].(int)
+			fr.i.ex.noteBound(args[0].(string), v)
+			return v
 		},
 		"Concrete": func(fr *frame, args []value) value { return fr.concValue(args[0]) },
 		"ConcreteString": func(fr *frame, args []value) value { return fr.concValue(args[0]) },
